@@ -55,10 +55,12 @@ Record ipair := {
 }.
 Definition mkp a b c d e f g h i := Build_ipair a b c d e f g h i.
 
-Definition kept_ok (T : option Q) (s : xq) (kept : option bool) : bool :=
+(* exact = true: every number of the case is a power of two, so the engine's float arithmetic
+   (products, log2) is exact and rows AT the threshold are compared too *)
+Definition kept_ok (exact : bool) (T : option Q) (s : xq) (kept : option bool) : bool :=
   match T, kept with
   | Some t, Some k => match s with
-                      | Fin q => if qclose e9 q t then true else Bool.eqb k (keep t s)
+                      | Fin q => if negb exact && qclose e9 q t then true else Bool.eqb k (keep t s)
                       | Inf => Bool.eqb k true end
   | None, None => true
   | _, _ => false
@@ -67,7 +69,7 @@ Definition kept_ok (T : option Q) (s : xq) (kept : option bool) : bool :=
 (* list of check codes that fail for one pair:
    1 gamma 2 bf 3 tf_adj 4 tf columns 5 score 6 probability 7 kept(weight) 8 kept(prob) 9 waterfall
    10 model has no value (NULL) but engine has / shape *)
-Definition check_pair (p : Q) (cmps : list (list level)) (tbl : list (Q * Q * Q)) (Tw Tp : option Q) (x : ipair) : list nat :=
+Definition check_pair (p : Q) (cmps : list (list level)) (tbl : list (Q * Q * Q)) (Tw Tp : option Q) (exact : bool) (x : ipair) : list nat :=
   let tfs := fun k => nth k (p_tf x) (None, None) in
   let outcs := map (fun v => fun i => tvn (nth i v 2%nat)) (p_outc x) in
   let tfcols_ok := all2 (fun a b => oclose (qclose e12) (fst a) (fst b) && oclose (qclose e12) (snd a) (snd b)) (p_itf x) (p_tf x) in
@@ -83,22 +85,22 @@ Definition check_pair (p : Q) (cmps : list (list level)) (tbl : list (Q * Q * Q)
       (if tfcols_ok then [] else [4%nat]) ++
       (if oclose (xclose e9) (p_score x) (Some s) then [] else [5%nat]) ++
       (if oclose (fun a b => Qle_bool (Qabs (a - b)) e9) (p_prob x) (Some (match_probability_of p terms)) then [] else [6%nat]) ++
-      (if kept_ok Tw s (p_kept_w x) then [] else [7%nat]) ++
-      (if kept_ok Tp s (p_kept_p x) then [] else [8%nat]) ++
+      (if kept_ok exact Tw s (p_kept_w x) then [] else [7%nat]) ++
+      (if kept_ok exact Tp s (p_kept_p x) then [] else [8%nat]) ++
       (match p_wf x with
        | None => []
        | Some (bars, fin) => if all2 (xclose e9) bars (prior_odds p :: terms) && xclose e9 fin s then [] else [9%nat]
        end)
   end.
 
-Definition case_t := (Q * list (list level) * list (Q * Q * Q) * option Q * option Q * list ipair)%type.
+Definition case_t := (Q * list (list level) * list (Q * Q * Q) * option Q * option Q * bool * list ipair)%type.
 Definition report_case (c : case_t) : list (nat * list nat) :=
-  match c with (p, cmps, tbl, Tw, Tp, pairs) =>
+  match c with (p, cmps, tbl, Tw, Tp, exact, pairs) =>
     filter (fun r => negb (match snd r with [] => true | _ => false end))
-           (combine (seq 0 (length pairs)) (map (check_pair p cmps tbl Tw Tp) pairs))
+           (combine (seq 0 (length pairs)) (map (check_pair p cmps tbl Tw Tp exact) pairs))
   end.
 Definition run_case (c : case_t) : bool :=
-  match c with (p, cmps, tbl, Tw, Tp, pairs) =>
+  match c with (p, cmps, tbl, Tw, Tp, exact, pairs) =>
     forallb tf_generable cmps && match report_case c with [] => true | _ => false end
   end.
 """
@@ -265,13 +267,20 @@ def make_linker(case):
 
 
 def outcomes(case, lk, pairs):
-    """engine-evaluated outcome (0 F / 1 T / 2 NULL) of every level condition for every pair"""
+    """engine-evaluated outcome (0 F / 1 T / 2 NULL) of every level condition for every pair of ids"""
     byid = {r["unique_id"]: r for r in case["rows"]}
+    return outcomes_rows(case, lk, [(byid[i], byid[j]) for i, j in pairs])
+
+
+def outcomes_rows(case, lk, rowpairs):
+    """the same for explicit (left row, right row) dictionaries"""
+    if not rowpairs:
+        return []
     prow = []
-    for k, (i, j) in enumerate(pairs):
+    for k, (rl, rr) in enumerate(rowpairs):
         d = {"pid": k}
         for c in G.COLS:
-            d[f"{c}_l"], d[f"{c}_r"] = byid[i][c], byid[j][c]
+            d[f"{c}_l"], d[f"{c}_r"] = rl.get(c), rr.get(c)
         prow.append(d)
     pdf = pd.DataFrame(prow)
     for c in G.COLS:
@@ -316,10 +325,10 @@ def outcomes(case, lk, pairs):
             oc.append(v)
         out[r["pid"]] = oc
     # cross-check the engine on the two condition kinds whose meaning is plain SQL equality / IS NULL
-    for k, (i, j) in enumerate(pairs):
+    for k, (rl, rr) in enumerate(rowpairs):
         for ci, comp in enumerate(case["spec"]["comparisons"]):
             for li, lv in enumerate(comp["levels"]):
-                a, b = byid[i][lv["col"]], byid[j][lv["col"]]
+                a, b = rl.get(lv["col"]), rr.get(lv["col"])
                 if lv["kind"] == "null":
                     exp = int(a is None or b is None)
                 elif lv["kind"] == "exact":
@@ -328,7 +337,7 @@ def outcomes(case, lk, pairs):
                     continue
                 if out[k][ci][li] != exp:
                     raise AssertionError(f"engine outcome {out[k][ci][li]} != {exp} for level {lv} on {a!r},{b!r}")
-    return [out[k] for k in range(len(pairs))]
+    return [out[k] for k in range(len(rowpairs))]
 
 
 def fnum(x):
@@ -387,7 +396,7 @@ def cx(v):
 
 
 def oq(v):
-    return coq_opt(v, coq_Q)
+    return "(@None Q)" if v is None else coq_opt(v, coq_Q)
 
 
 def case_term(case, impl):
@@ -462,7 +471,7 @@ def case_term(case, impl):
         p = Fr(impl["thr_p_value"])
         Tp = p / (1 - p)
     tbl = coq_list([f"({coq_Q(b)}, {coq_Q(w)}, {coq_Q(v)})" for (b, w), v in powtbl.items()], "(Q * Q * Q)")
-    term = (f"({coq_Q(Fr(spec['prior']))}, {G.cmps_term(spec)}, {tbl}, {oq(Tw)}, {oq(Tp)}, "
+    term = (f"({coq_Q(Fr(spec['prior']))}, {G.cmps_term(spec)}, {tbl}, {oq(Tw)}, {oq(Tp)}, {coq_bool(bool(case.get('exact_thr')))}, "
             + coq_list(pterms, "ipair") + ")")
     return term, infos, waterfall_py_ok
 
